@@ -48,6 +48,15 @@ def fam_list():
     F.append(("abmd", d1 + "abmd {\n colvars d1\n forceConstant 5.0\n stoppingValue 7.5\n}\n", "off"))
     F.append(("histogram", d1 + "histogram {\n colvars d1\n}\n", "off"))
     F.append(("histogram_2d", d1 + d2 + "histogram {\n colvars d1 d2\n}\n", "off"))
+    # several biases of the same type with different state parameters (text states are matched to biases by name)
+    F.append(("two_harm_move", d1 + d2 +
+              "harmonic {\n name hA\n colvars d1\n centers 3.0\n targetCenters 7.0\n targetNumSteps 16\n forceConstant 4.0\n outputCenters on\n outputAccumulatedWork on\n}\n"
+              "harmonic {\n name hB\n colvars d2\n centers -2.0\n targetCenters 3.0\n targetNumSteps 10\n forceConstant 1.5\n outputCenters on\n outputAccumulatedWork on\n}\n"
+              "harmonic {\n name hC\n colvars d1\n centers 5.0\n forceConstant 0.5\n}\n", "off"))
+    F.append(("two_abmd", d1 + d2 + "abmd {\n name aA\n colvars d1\n forceConstant 5.0\n stoppingValue 7.5\n}\n"
+              "abmd {\n name aB\n colvars d2\n forceConstant 2.0\n stoppingValue 3.0\n}\n", "off"))
+    F.append(("two_meta", d1 + d2 + "metadynamics {\n name mA\n colvars d1\n hillWeight 0.5\n newHillFrequency 3\n hillWidth 2.0\n}\n"
+              "metadynamics {\n name mB\n colvars d2\n hillWeight 0.25\n newHillFrequency 2\n hillWidth 1.5\n keepHills on\n}\n", "off"))
     F.append(("meta_harm_ti", d1 + "metadynamics {\n colvars d1\n hillWeight 0.5\n newHillFrequency 3\n hillWidth 2.0\n writeTIPMF on\n}\n", "same"))
     return F
 
@@ -299,4 +308,4 @@ def run(tier, replay):
     c.exhaustive = (tier != "quick")
     c.extra["T"] = T
     nf = len(c.extra.get("families_covered", []))
-    return c.finish(nf >= 18 and len(c.distinct) >= 300, "%d families, %d distinct (family, format, K)" % (nf, len(c.distinct)))
+    return c.finish(nf >= 20 and len(c.distinct) >= 300, "%d families, %d distinct (family, format, K)" % (nf, len(c.distinct)))
